@@ -493,6 +493,7 @@ type FuncSpec struct {
 	RelOver  string
 	Sets     []GhostSet // ghost assignments performed at function entry ("sets g = expr")
 	Reveals  []string   // opaque spec functions whose definitions this function's VC may use
+	AtCall   map[string][]Clause // callee short name -> assertions checked in this function at every call of that callee
 	Trusted  bool // contract is assumed, body not verified (extern/iface always)
 	File     string
 	Line     int
@@ -542,7 +543,7 @@ func NewSpecDB() *SpecDB {
 
 var clauseKeywords = map[string]bool{"spec": true, "axiom": true, "lemma": true, "ghost": true, "func": true, "iface": true,
 	"extern": true, "params": true, "results": true, "requires": true, "ensures": true, "modifies": true, "loop": true,
-	"closure": true, "invariant": true, "relation": true, "trusted": true, "end": true, "sets": true, "reveals": true, "assumes": true}
+	"closure": true, "invariant": true, "relation": true, "trusted": true, "end": true, "sets": true, "reveals": true, "assumes": true, "atcall": true}
 
 // canonKey turns "Name", "(*T).M", "(T).M", "I.M" into a key qualified by pkg, unless already qualified (contains '/').
 func canonKey(pkg, name string) string {
@@ -743,6 +744,27 @@ func (db *SpecDB) LoadSpecFile(path, pkg string, stripPrefix bool) error {
 				return err
 			}
 			target.Assumed = append(target.Assumed, c)
+		case "atcall":
+			// atcall <callee> <expr>: intermediate assertion of the enclosing function at each call of <callee>; the
+			// expression sees the caller's variables at that point and the callee's parameter names (bound to the arguments)
+			if target == nil {
+				return fmt.Errorf("%s:%d: atcall outside func", path, s.n)
+			}
+			k := strings.IndexAny(s.rest, " \t")
+			if k < 0 {
+				return fmt.Errorf("%s:%d: atcall needs '<callee> <expr>'", path, s.n)
+			}
+			callee := s.rest[:k]
+			s2 := s
+			s2.rest = strings.TrimSpace(s.rest[k:])
+			c, err := mkClause(s2)
+			if err != nil {
+				return err
+			}
+			if target.AtCall == nil {
+				target.AtCall = map[string][]Clause{}
+			}
+			target.AtCall[callee] = append(target.AtCall[callee], c)
 		case "requires", "ensures", "invariant":
 			if target == nil {
 				return fmt.Errorf("%s:%d: clause outside func", path, s.n)
